@@ -154,9 +154,6 @@ func (w *World) rvSort() *Sort {
 }
 
 func (w *World) pintSort() *Sort {
-	if _, ok := w.decls["PInt"]; !ok {
-		w.addDecl("PInt", "(declare-datatypes ((PInt 0)) (((pnil) (pref (pval Int)))))")
-	}
 	return mkSort("PInt")
 }
 
@@ -409,13 +406,14 @@ const preludeText = `
 (define-sort Str () Int)
 (define-sort F64 () (_ FloatingPoint 11 53))
 (declare-datatypes ((Unit 0)) (((unit))))
+(declare-datatypes ((PInt 0)) (((pnil) (pref (pval Int)))))
 (declare-datatypes ((Val 0) (Node 0)) (
   ((VNil) (VBool (vbool Bool)) (VNum (vnum F64)) (VStr (vstr Str))
    (VArr (varr (Array Int Val)) (vlen Int) (varrnil Bool))
    (VObj (vdom (Array Str Bool)) (vmap (Array Str Val)) (vsize Int) (vobjnil Bool))
    (VExpRef (vref Node))
    (VInt (vint Int)) (VTok (vtok Int))
-   (VIntPtrs (vpp (Array Int Bool)) (vpv (Array Int Int)) (vpn Int))
+   (VIntPtrs (vp0 PInt) (vp1 PInt) (vp2 PInt) (vpn Int))
    (VIntr (vintr Int))
    (VGo (vgokind Int) (vgoid Int)))
   ((NodeBottom) (mkNode (ntype Int) (nval Val) (kids (Array Int Node)) (nkids Int)))
